@@ -87,7 +87,7 @@ public:
  */
 class RecursiveSpinlock : mixins::Nonmovable<RecursiveSpinlock> {
   std::atomic_flag ready_ = ATOMIC_FLAG_INIT;
-  std::thread::id locked_thread_id_ = std::thread::id();
+  std::atomic<std::thread::id> locked_thread_id_{std::thread::id()};
   std::uint32_t lock_count_ = 0;
 
 public:
@@ -101,12 +101,12 @@ public:
     PRIMITIV_VERIF_YIELD(RSPIN_TRY_TAS)
     if (ready_.test_and_set(std::memory_order_acquire)) {
       PRIMITIV_VERIF_YIELD(RSPIN_TRY_RD_OWNER)
-      if (locked_thread_id_ != this_thread_id) {
+      if (locked_thread_id_.load(std::memory_order_relaxed) != this_thread_id) {
         return false;
       }
     } else {
       PRIMITIV_VERIF_YIELD(RSPIN_TRY_WR_OWNER)
-      locked_thread_id_ = this_thread_id;
+      locked_thread_id_.store(this_thread_id, std::memory_order_relaxed);
     }
     PRIMITIV_VERIF_YIELD(RSPIN_TRY_INC_COUNT)
     ++lock_count_;
@@ -123,13 +123,13 @@ public:
    */
   void unlock() {
     PRIMITIV_VERIF_YIELD(RSPIN_UNL_RD_OWNER)
-    if (locked_thread_id_ != std::this_thread::get_id()) {
+    if (locked_thread_id_.load(std::memory_order_relaxed) != std::this_thread::get_id()) {
       return;
     }
     PRIMITIV_VERIF_YIELD(RSPIN_UNL_DEC_COUNT)
     if (--lock_count_ == 0) {
       PRIMITIV_VERIF_YIELD(RSPIN_UNL_WR_OWNER)
-      locked_thread_id_ = std::thread::id();
+      locked_thread_id_.store(std::thread::id(), std::memory_order_relaxed);
       PRIMITIV_VERIF_YIELD(RSPIN_UNL_CLEAR)
       ready_.clear(std::memory_order_release);
     }
